@@ -547,7 +547,15 @@ qb_vsnprintf_serialize(char *serialize, size_t max_len,
 	 * argument set to QB_TRUE, so callers can honor extended setting)
 	 */
 	if ((qb_xc = strchr(serialize, QB_XC)) != NULL) {
-		*qb_xc = *(qb_xc + 1)? '|' : '\0';
+		if (*(qb_xc + 1)) {
+			*qb_xc = '|';
+		} else {
+			/* a marker with nothing behind it is dropped: the stored
+			 * format is one character shorter and the arguments
+			 * follow its new terminator */
+			*qb_xc = '\0';
+			location--;
+		}
 	}
 
 	format = (char *)fmt;
